@@ -8,6 +8,7 @@ pub mod par;
 pub mod refmodel;
 pub mod rsast;
 pub mod subject;
+pub mod wellformed;
 
 #[cfg(feature = "hooks")]
 pub mod bfs;
